@@ -335,6 +335,41 @@ def m_str_split(interp, args, info):
     return IterV("vec", ListV(ps))
 
 
+def m_str_splitn(interp, args, info):
+    t = _text(interp, args[0])
+    if t is None or t.kind != "str":
+        return NotImplemented
+    which = info["def"].rsplit("::", 1)[1]
+    n = args[1]
+    if isinstance(n, bool) or not isinstance(n, int):
+        raise Inconclusive("%s count %r" % (which, n), interp.where())
+    ps = _str_pieces(interp, t, args[2])
+    if n == 0:
+        return IterV("vec", ListV([]))
+    if which == "splitn":
+        if len(ps) > n:
+            ps = ps[:n - 1] + [TextV(t.base, ps[n - 1].start, t.end, "str")]
+    else:                       # rsplitn: pieces from the end, the last one is the untouched head
+        if len(ps) > n:
+            ps = [TextV(t.base, t.start, ps[len(ps) - n].end, "str")] + ps[len(ps) - n + 1:]
+        ps = list(reversed(ps))
+    return IterV("vec", ListV(ps))
+
+
+def m_str_split_once(interp, args, info):
+    t = _text(interp, args[0])
+    if t is None or t.kind != "str":
+        return NotImplemented
+    which = info["def"].rsplit("::", 1)[1]
+    b = t.bytes()
+    idx = range(len(b)) if which == "split_once" else range(len(b) - 1, -1, -1)
+    for i in idx:
+        n = _match_at(interp, args[1], b, i)
+        if n:
+            return some((TextV(t.base, t.start, t.start + i, "str"), TextV(t.base, t.start + i + n, t.end, "str")))
+    return NONE
+
+
 def m_str_matches(interp, args, info):
     t = _text(interp, args[0])
     if t is None or t.kind != "str":
@@ -384,6 +419,10 @@ def install():
     _wrap("core::str::<impl str>::rfind", m_rfind)
     for n in ("split", "rsplit", "split_inclusive", "split_terminator", "rsplit_terminator"):
         _wrap("core::str::<impl str>::" + n, m_str_split)
+    for n in ("splitn", "rsplitn"):
+        _wrap("core::str::<impl str>::" + n, m_str_splitn)
+    for n in ("split_once", "rsplit_once"):
+        _wrap("core::str::<impl str>::" + n, m_str_split_once)
     for n in ("matches", "rmatches", "match_indices", "rmatch_indices"):
         _wrap("core::str::<impl str>::" + n, m_str_matches)
     _wrap("core::slice::<impl [T]>::split", m_split)
